@@ -28,7 +28,7 @@ def plan(tier, seed, excl):
     t += [('scalars', {'shard': i, 'n': 4000 if q else 60000}) for i in range(10)]
     t += [('sizes', {'shard': i, 'of': 16, 'tier': tier}) for i in range(16)]
     t.append(('after-failed-dump', {}))
-    t.append(('fixed-offset', {}))
+    t += [('fixed-offset', {'order': k}) for k in range(3)]
     t += [('independent-results', {'shard': i, 'of': 4, 'n': 120 if q else 1500}) for i in range(4)]
     t += [('grids', {'shard': i, 'n': 700 if q else 8000}) for i in range(16)]
     return t
@@ -78,7 +78,7 @@ def run(part, args, env, fmt=FMT):
         acc.bulk(n, n, labels=('after-failed-dump',))
         acc.sample({'kind': 'after-failed', 'grids': n})
     elif part == 'fixed-offset':
-        rt.fixed_offset_part(acc, fmt, 'own')
+        rt.fixed_offset_part(acc, fmt, 'own', args.get('order', 0))
     elif part == 'independent-results':
         for i, m in enumerate(gen.catalogue_grids(excl)):
             if i % args['of'] != args['shard']:
@@ -159,6 +159,8 @@ def forms_for(fmt):
 
 
 def replay(stage, case, fmt=FMT):
+    if case['kind'] == 'fixed-offset' and 'upto' in case:
+        return rt.check_fixed_offset_seq(case, fmt, 'own')
     if case['kind'] == 'fixed-offset':
         return rt.check_fixed_offset(case, fmt, 'own')
     if case['kind'] == 'after-failed':
